@@ -73,6 +73,7 @@ type Exec struct {
 	immutKept     bool
 	nimm          int
 	beforeSeen    map[string]bool
+	overflow      bool      // contract option: machine-integer overflow of + - * is an obligation
 	curPos        token.Pos // position of the instruction being executed (for safety obligations)
 	acqSnap       map[string]*State
 	nacq          int
@@ -787,6 +788,17 @@ func (ex *Exec) run() {
 			}
 			if f := ex.P.calleeByShortName(fn, callee); f != nil && f.Signature.Results().Len() > k {
 				srt = vc.sortOf(f.Signature.Results().At(k).Type())
+			} else {
+				// an interface method: take the result type from the first invoke of that name
+				for _, b := range fn.Blocks {
+					for _, in := range b.Instrs {
+						if ci, ok := in.(ssa.CallInstruction); ok && ci.Common().IsInvoke() && ci.Common().Method.Name() == callee {
+							if rs := ci.Common().Signature().Results(); rs.Len() > k {
+								srt = vc.sortOf(rs.At(k).Type())
+							}
+						}
+					}
+				}
 			}
 			st.ghost["obs:"+v] = vc.zeroOfSort(srt, nil)
 		}
